@@ -98,3 +98,43 @@ CLAIMS["C09"] = dict(
          "rejected only by the index lookup; a single-parameter scalar is always rejected (TypeError: unhashable ODEVariable); Symbol names in a "
          "pair list are rejected. Not modelled: frozen-distribution / (callable,args) dict values (C16), ODEVariable parameters whose name differs from their ID.",
     technique="Lean 4 refinement proof (abstraction to a name->value map, representation invariant, induction over histories) + model/code correspondence + direct oracle")
+CLAIMS["C04"] = dict(
+    text="Proved in Lean about an executable model of firstReaction / tauLeap / _get_adaptive_tau_step / the cython safety loop / _checkJump / the `while t < finalT` "
+         "loop of _jump (Pygom/Stoch.lean), for every model (arbitrary rate, state-change, ODE, mean and variance functions, any number of states and events, "
+         "one included) and every list of random draws of any length: the path starts at (x0,t0); recorded times are strictly increasing (positive exponential "
+         "variates, epsilon>0, positive pre_tau if set; adaptive tau proved positive; the safety loop proved to be the identity); counts are naturals, one per event, "
+         "one-hot with a positive-rate event on every first-reaction step (all steps in exact mode) and the first minimal waiting time is the one taken; "
+         "x_{k+1}-x_k = V(x_k,t_k).counts_k componentwise, plus pureOde.tau on tau-leap steps; the loop is left exactly at t>=finalT, or when all rates are zero, or when a "
+         "first-reaction proposal leaves the limits. Termination in finitely many steps is not proved (probability-one statement; path_exit_partial proves no iteration stalls). "
+         "The model is tied to the code on every run: the real solve_stochast is run with every numpy draw and evaluator call recorded and every loop iteration is replayed "
+         "through the Lean driver from the observed pre-state (post-state and counts exactly, times/tau to 1e-12).",
+    note="Trusted: Lean kernel; the harness (generator, tracer wrapping numpy.random / evaluators / _jump, step cap and rate cap that end explosive runs); numpy's generator "
+         "as the source of variates; IEEE double vs exact rationals at 1e-12. Direct oracle independent of Lean: start, finite strictly increasing times, integer counts, "
+         "one event per exact step, fired events have positive rate, dx = vMat.counts (+ pureOde.dt), legal exit. Shares the range-style limit-list defect with C11 "
+         "(crash by negative rate) until proposed_fixes/C11-range-style-limits.diff is applied.",
+    technique="Lean 4 induction over draw lists (step specification + loop invariant) + per-step differential replay of the real run")
+CLAIMS["C11"] = dict(
+    text="Proved in Lean: _checkJump rejects exactly the proposals that violate an entry of the limit list, returns the old state and time on rejection and the proposed "
+         "state and t+dt on acceptance ((None,None) skipped, lower-only, upper-only, two-sided); every state recorded by the _jump loop is within the limit list - exact mode, "
+         "adaptive or fixed tau, any epsilon, any magnitudes, with or without the first-reaction retry, for every model and every draw list with no hypothesis on the draws; "
+         "the (repaired) limit list has one entry per state, aligned with the state it was declared for (range-style declarations expanded), default (0,None), hence every "
+         "state of every row respects its own declared limits. The limit list of the unrepaired tree (one entry per declared name) is proved to accept a forbidden state "
+         "(legacy_limits_counterexample) and to misalign later limits. Tie: per-iteration replay of real runs (accept/reject, branch, retry), the limit list itself, and every "
+         "rejected step replayed through the public tauLeap / firstReaction with the recorded variates.",
+    note="Trusted: Lean kernel; harness generator/tracer. Assumed: x0 within limits; gridded tau-leap rows are numpy's linear interpolation (checked by the direct oracle only). "
+         "Direct oracle: min/max of raw and gridded arrays against the declared limits (lower 0 for every undeclared state), rejected steps leave (x,t) unchanged, steps inside "
+         "the limits are not rejected. /repo violates the property for range-style state declarations until proposed_fixes/C11-range-style-limits.diff is applied "
+         "(then flip nothing; without it set LEGACY_STATE_LIMS=True in harness/props/stoch_common.py to make the model follow the old list).",
+    technique="Lean 4 loop invariant over arbitrary draw lists + list-alignment lemmas + differential replay of real runs")
+CLAIMS["C15"] = dict(
+    text="Proved in Lean about _extractObservationAtTime, numpy's histogram bin convention and the (repaired) _addJumpsBetweenTime: one row per requested time and one "
+         "count row per interval; first row = initial state; row k is the record with the last time <= grid[k] (also past the last event); entry (k,i) of the counts is the number "
+         "of firings of transition i with event time in numpy's bin k; and for paths with increasing times and increments V.counts (supplied by C04 for every exact-mode run) "
+         "row_{k+1}-row_k = V.counts_k componentwise, under the hypothesis the proof forces: no event time coincides with an interior grid point (measure zero; a counterexample "
+         "theorem shows it cannot be dropped). The exact-mode histogram of the unrepaired tree is refuted by exact_counts_counterexample. Time-argument normalisation "
+         "(number / one-element list = horizon; longer list, tuple, any array = grid). Tie: real solve_stochast(grid, 2, exact=True, full_output=True) with the raw path recorded, rows and "
+         "counts against the Lean driver exactly.",
+    note="Trusted: Lean kernel; harness generator/tracer. Assumed: state-independent state-change matrix, grid starting at t0 and increasing. Direct oracle: plain last-record "
+         "lookup, per-transition event counts per interval, rows differ by vMat.counts. /repo violates the property (exact-mode counts; IndexError for a path without events) until "
+         "proposed_fixes/C15-exact-interval-counts.diff and C15-path-without-events.diff are applied (without the first set LEGACY_EXACT_COUNTS=True in harness/props/stoch_common.py).",
+    technique="Lean 4 list induction (prefix sums selected by time, sum exchange) + differential replay of real gridded runs")
